@@ -11,6 +11,22 @@ pub trait AsyncReadExt {
             old(self).avail().len() >= old(buf)@.len() ==> r is Ok && final(buf)@ == old(self).avail().subrange(0, old(buf)@.len() as int)
                  && final(self).avail() == old(self).avail().subrange(old(buf)@.len() as int, old(self).avail().len() as int),
             old(self).avail().len() < old(buf)@.len() ==> r is Err;
+    fn read_u8(&mut self) -> (r: io::Result<u8>)
+        ensures
+            old(self).avail().len() >= 1 ==> r is Ok && r->Ok_0 == old(self).avail()[0] && final(self).avail() == old(self).avail().subrange(1, old(self).avail().len() as int),
+            old(self).avail().len() < 1 ==> r is Err;
+    fn read_u16(&mut self) -> (r: io::Result<u16>)
+        ensures
+            old(self).avail().len() >= 2 ==> r is Ok && r->Ok_0 == de16(old(self).avail().subrange(0, 2)) && final(self).avail() == old(self).avail().subrange(2, old(self).avail().len() as int),
+            old(self).avail().len() < 2 ==> r is Err;
+    fn read_i16(&mut self) -> (r: io::Result<i16>)
+        ensures
+            old(self).avail().len() >= 2 ==> r is Ok && r->Ok_0 == de16(old(self).avail().subrange(0, 2)) as i16 && final(self).avail() == old(self).avail().subrange(2, old(self).avail().len() as int),
+            old(self).avail().len() < 2 ==> r is Err;
+    fn read_u32(&mut self) -> (r: io::Result<u32>)
+        ensures
+            old(self).avail().len() >= 4 ==> r is Ok && r->Ok_0 == de32(old(self).avail().subrange(0, 4)) && final(self).avail() == old(self).avail().subrange(4, old(self).avail().len() as int),
+            old(self).avail().len() < 4 ==> r is Err;
     // one read: any non-empty prefix of what is available (partial reads), 0 only at end of input
     fn read(&mut self, buf: &mut [u8]) -> (r: io::Result<usize>)
         ensures
